@@ -534,9 +534,22 @@ def run_k2v2(chk, n_tus, cases_per_tu, scripts_per_case, size_range=(2, 8), cfg=
     return stats
 
 
+def quick_corpus():
+    """two translation units of hand-picked cases touching every stage (the whole CORPUS runs in the thorough tier)"""
+    want = ["(swhen (leafn 0) (leafn 1))", "(letv (wall", "(dopt (wall", "(fin (seq", "(tvia 100 2", "(on 100 1 (via", "(wall (sched",
+            "(letv (sched", "(lvss 0 (wall (leafr", "(lvss 0 (unstop", "(repeat b001", "(retry 2 (letv", "(retry 1 (wall", "(defer (letv",
+            "(wany (wall", "(fin (wany"]
+    out = []
+    for w in want:
+        out += [c for c in CORPUS if to_model(c).startswith(w)][:1]
+    return out
+
+
 def standard_k2v2(chk):
     quick = chk.tier == "quick"
-    run_k2v2(chk, n_tus=6 if quick else 40, cases_per_tu=8, scripts_per_case=24 if quick else 60)
-    # C++20 build: the same plus with_scheduler_affinity (its header needs coroutine support)
+    c20 = [c for c in CORPUS if "wsav" in to_model(c) or "stopif" in to_model(c)]
+    run_k2v2(chk, n_tus=5 if quick else 40, cases_per_tu=8, scripts_per_case=24 if quick else 60,
+             corpus=quick_corpus() if quick else None)
+    # C++20 build: the same plus with_scheduler_affinity and stop_if_requested (their headers need coroutine support)
     return run_k2v2(chk, n_tus=1 if quick else 6, cases_per_tu=8, scripts_per_case=24 if quick else 60, cfg="plain20",
-                    corpus=[c for c in CORPUS if "wsav" in to_model(c) or "stopif" in to_model(c)] + [CORPUS[0]], seed_salt=1000)
+                    corpus=(c20[:3] if quick else c20 + [CORPUS[0]]), seed_salt=1000)
